@@ -59,6 +59,15 @@ def _strategy(draw):
         mode = draw(st.sampled_from(["c", "c", "mc"]))
     spec["coords"] = draw(c03.supplied_coords(spec, opts["box"], mode=mode, nres=nres,
                                               skip=opts.get("build_res", ())))
+    if draw(st.integers(0, 3)) == 0:
+        # the walk of one molecule is told (-start) to begin at a residue that has supplied coordinates
+        by_name = {mt["name"]: mt for mt in spec["moltypes"]}
+        mol_names = [n for n, c in spec["molecules"] for _ in range(c)]
+        cands = [(mi, ri) for (mi, ri) in stream[:nres] if mol_names[mi] != ignore]
+        if cands:
+            mi, ri = draw(st.sampled_from(cands))
+            rd = by_name[mol_names[mi]]["residues"][ri]
+            opts["start"] = [f"{mol_names[mi]}#{mi}-{rd['resname']}#{ri + 1}"]
     spec["opts"] = opts
     if draw(st.integers(0, 2)) == 0:
         # a burst of failures right at the start together with a small number of allowed attempts:
@@ -191,5 +200,7 @@ def check(spec, ctx):
     ctx.label("mode_" + coords["mode"])
     if skip:
         ctx.label("res_option")
+    if spec["opts"].get("start"):
+        ctx.label("start_at_supplied_residue")
     ign_not_last = bool(ignore) and any(n not in ignore for n in mol_names[max(i for i, n in enumerate(mol_names) if n in ignore):][1:]) if ignore else False
     ctx.nontrivial = (partial and state["fails"] > 0) or ign_not_last
